@@ -104,18 +104,24 @@ Definition trig_f1_exit (k : c02_case) : bool :=
   c_must_ok c && trig_f1 k && fee_solvent_b (c_pre c) &&
   match snd (step (c_pre c) (c_op c)) with Err e => e =? E_INSUFFICIENT_FUNDS | _ => false end.
 
+(* one evaluation of every expensive piece per case ([corr], [solvent_b]); the solvency verdict is
+   [mon_solvent c] *)
 Definition c02_check (k : c02_case) : list Z :=
   let c := k_case k in
-  flag 0 (corr c) ++
-  flag 1 (mon_exit c) ++
+  let ok := corr c in
+  let need := if ok then needs_solvency_check c || c_must_ok c else true in
+  let solv := if need then solvent_b (c_post c) else true in
+  let ex := mon_exit c in
+  flag 0 ok ++
+  flag 1 ex ++
   flag 2 (mon_dust k) ++
   flag 3 (mon_owner c) ++
   flag 4 (mon_conserve k) ++
-  flag 5 (mon_solvent c) ++
+  flag 5 solv ++
   flag 6 (mon_fee_solvent c) ++
   flag 7 (mon_flows k) ++
   flag 8 (mon_nonneg c) ++
-  (if mon_solvent c && mon_exit c then []
+  (if solv && ex then []
    else (if trig_f1 k then [101] else []) ++ (if trig_f1_exit k then [102] else [])).
 
 Definition run := run_cases c02_check.
